@@ -3,6 +3,8 @@ package c07
 import (
 	"time"
 
+	"github.com/siglens/siglens/pkg/config"
+	"github.com/siglens/siglens/pkg/retention"
 	"github.com/siglens/siglens/pkg/segment/metadata"
 
 	"verifharness/sut"
@@ -10,7 +12,17 @@ import (
 
 var overlayBuilt bool
 
+// c07RetentionHours: 20 years. The pass the server runs every 30 minutes (internalRetentionCleaner), called with a
+// horizon older than every generated event (they carry fixed 2023 timestamps): nothing expires, so the pass must not
+// change what is stored. The configuration loader caps the setting at 30 days; the pass itself takes any horizon
+// (a horizon before 1970 would wrap around in GetRetentionTimeMs - not reachable through the configuration).
+const c07RetentionHours = 24 * 365 * 20
+
 func init() {
+	sut.RegisterOp("c07.retention", func(r *sut.Req) (interface{}, error) {
+		retention.DoRetentionBasedDeletion(config.GetCurrentNodeIngestDir(), c07RetentionHours, 0)
+		return nil, nil
+	})
 	// wait until the background start-up sync of segment metadata has settled
 	sut.RegisterOp("wait_meta", func(r *sut.Req) (interface{}, error) {
 		deadline := time.Now().Add(15 * time.Second)
